@@ -6,7 +6,9 @@ rows = [json.load(open(f)) for f in sorted(glob.glob(os.path.join(HERE, "seeded"
 def first(m):
     d = m["detection"].lower()
     return d.startswith("caught as built") or d.startswith("caught by the check") or "as submitted" in d
-built = sum(1 for m in rows if first(m)); late = len(rows) - built
+def missed(m):
+    return m["detection"].startswith("MISSED")
+built = sum(1 for m in rows if first(m)); nmiss = sum(1 for m in rows if missed(m)); late = len(rows) - built - nmiss
 def short(t, n):
     t = t.replace("|", "/").replace("\n", " ")
     return t if len(t) <= n else t[:n - 1] + "…"
@@ -17,9 +19,11 @@ b = s.index("\nPatterns in the misses")
 tab = "| Seed | What the change breaks | Detection |\n|---|---|---|\n" + "".join("| %s | %s | %s |\n" % (m["seed_id"], short(m["breaks"], 230), short(m["detection"], 330)) for m in rows)
 s = s[:a] + tab + s[b:]
 s = re.sub(r"All \d+ were confirmed", "All %d were confirmed" % len(rows), s)
-s = re.sub(r"`meta\.json`\)\. \d+ were detected by the checks as they stood when the seed arrived, \d+ were missed\nand led to the strengthening named in the last column; all \d+ are detected now\.",
-           "`meta.json`). %d were detected by the checks as they stood when the seed arrived, %d were missed\nand led to the strengthening named in the last column; all %d are detected now." % (built, late, len(rows)), s)
-s = re.sub(r"\d+ independently seeded defects \(two to \w+ per property\), all\ndetected by the current checks – \d+ by the checks as they stood when the seed arrived, \d+ only\nafter the strengthening listed in §8\.",
-           "%d independently seeded defects (three to five per property), all\ndetected by the current checks – %d by the checks as they stood when the seed arrived, %d only\nafter the strengthening listed in §8." % (len(rows), built, late), s)
+s = re.sub(r"`meta\.json`\)\. \d+ were detected by the checks as they stood when the seed arrived, .*?\n\n\| Seed",
+           "`meta.json`). %d were detected by the checks as they stood when the seed arrived, %d were missed\nand led to the strengthening named in the last column, %d %s missed and not pursued (marked MISSED in the table: a limit of the\ncheck, not a detection); the other %d are detected now.\n\n| Seed" % (
+               built, late, nmiss, "was" if nmiss == 1 else "were", len(rows) - nmiss), s, flags=re.S)
+s = re.sub(r"\d+ independently seeded defects \(.*?listed in §8\.",
+           "%d independently seeded defects (five to nine per property), %d of them\ndetected by the current checks – %d by the checks as they stood when the seed arrived, %d only\nafter the strengthening listed in §8; %d not detected (§8)." % (
+               len(rows), len(rows) - nmiss, built, late, nmiss), s, flags=re.S)
 open(p, "w").write(s)
-print(len(rows), built, late)
+print(len(rows), built, late, nmiss)
